@@ -140,7 +140,27 @@ def threaded_specs(modules: list, tests: dict) -> list:
     return out
 
 
-def boundary_specs(m: str, ref: dict, tests: dict, prefixes) -> list:
+WRAPPERS = ("Average(", "FiniteDifference(", "ExactDifferential(", "InexactDifferential(")
+
+
+def wrapped_specs(modules: list, tests: dict) -> list:
+    """For the modules that use the Symbolic wrappers: other code has wrapped symbols of its own, which print like
+    the catalogue's symbols but have other dimensions, into the same wrappers before the import."""
+    out = []
+    for m in modules:
+        src = (REPO / (m.replace(".", "/") + ".py"))
+        try:
+            text = src.read_text()
+        except OSError:
+            continue
+        if any(w in text for w in WRAPPERS):
+            s = iso_spec(m, tests)
+            s.update(hid=f"iso-wrapped:{m}", steps=[["symbolic"], ["import", m]])
+            out.append(s)
+    return out
+
+
+def boundary_specs(m: str, ref: dict, tests: dict, prefixes, sample=None) -> list:
     """One history per position at which a digit-count boundary (9/10, 99/100, ...) can fall INSIDE the sequence
     of names of one prefix that importing m alone hands out (its dependencies' names included): other code has
     created just enough objects of that prefix before.  By NameOrder!BlockLemma these are all the orders the
@@ -153,7 +173,12 @@ def boundary_specs(m: str, ref: dict, tests: dict, prefixes) -> list:
         seq.setdefault(b, []).append(i)
     for p in prefixes:
         ids = seq.get(p, [])
-        for j in range(1, len(ids)):
+        positions = list(range(1, len(ids)))
+        if sample is not None and p == "SYM" and positions:
+            # quick: a seeded third of the SYM positions of this import (thorough replays all of them)
+            rnd = random.Random(f"{sample}|{m}")
+            positions = sorted(rnd.sample(positions, (len(positions) + 2) // 3))
+        for j in positions:
             bound = 10
             while bound < ids[j]:
                 bound *= 10
@@ -466,7 +491,7 @@ def judge(run: Run, sc: Path, modules: list, results: dict, refs: dict) -> None:
                           f"id {a['id']} and from prefix {b['b']!r} id {b['id']}: two objects created by different code "
                           f"share their internal name in this history (NoAlias of Symbols.tla)",
                           {"history": r["spec"], "hashseed": r["hashseed_used"], "events": [a, b]})
-    rank = {"iso": 0, "iso-shifted": 1, "boundary": 2, "iso-hashseed7": 3, "threaded": 4, "canon": 5, "cat": 6}
+    rank = {"iso": 0, "iso-shifted": 1, "iso-wrapped": 1, "boundary": 2, "iso-hashseed7": 3, "threaded": 4, "canon": 5, "cat": 6}
     # report each defect with the simplest history that shows it
     illegal = sorted(((traces[x[0]]["hid"], x[1], x[2]) for x in illegal),
                      key=lambda x: (rank.get(x[0].split(":")[0], 9), x[0], x[1]))
@@ -546,13 +571,17 @@ def main() -> int:
         iso = [m for m in modules if not only or any(o in m for o in only)]
         cats = [] if only and "cat" not in only else catalogue_orders(modules, tier, run.seed)
         specs = [(cat_spec(h, o, offs, tests), hs) for h, o, offs, hs in cats] + [(iso_spec(m, tests), 0) for m in iso] + \
-            [(shifted_spec(m, tests), 5) for m in iso] + ([] if only and "threaded" not in only else [(x, 0) for x in threaded_specs(modules, tests)])
+            [(shifted_spec(m, tests), 5) for m in iso] + [(x, 0) for x in wrapped_specs(iso, tests)] + \
+            ([] if only and "threaded" not in only else [(x, 0) for x in threaded_specs(modules, tests)])
         collect(run, sc, specs, "isolated + isolated with shifted counters + threaded + catalogue orders", 3000, results)
         refs = {m: results[f"iso:{m}"] for m in iso if f"iso:{m}" in results and not results[f"iso:{m}"].get("timeout")}
         # every position of a digit boundary inside the names one import hands out (FUN / QTY / SYS blocks are
         # small: all positions in quick; SYM as well in thorough)
-        prefixes = ("FUN", "QTY", "SYS") + (("SYM",) if tier == "thorough" else ())
-        specs = [(x, 0) for m in iso if m in refs for x in boundary_specs(m, refs[m], tests, prefixes)]
+        prefixes = ("FUN", "QTY", "SYS", "SYM")
+        specs = [(x, 0) for m in iso if m in refs
+                 for x in boundary_specs(m, refs[m], tests, prefixes, sample=None if tier == "thorough" else run.seed)]
+        run.coverage["boundary_histories"] = {"total": len(specs), "SYM": sum(1 for x, _ in specs if x["hid"].startswith("boundary:SYM")),
+                                              "SYM_positions": "all" if tier == "thorough" else "a seeded third per module (VERIF_SEED)"}
         collect(run, sc, specs, "boundary inside the names of one import, every position", 900, results)
         # a second hash seed for the reference history (thorough)
         if tier == "thorough":
